@@ -79,7 +79,11 @@ def gen_api_tree(rnd, depth=0, xmlns_attr=False, special=False):
     if depth < 3:
         for _ in range(rnd.randint(0, 3)):
             q = rnd.random()
-            if special and rnd.random() < .12:
+            if rnd.random() < .06:
+                # "]]>" straddling adjacent (API-made) text nodes: it must survive as character data
+                kids.extend(("text", x) for x in rnd.choice([("]]", ">"), ("a]", "]>b"), ("]", "]", ">"), ("data[i[0]]", "> 0"),
+                                                             ("]]", "", ">"), ("x]]", ">", "]]", ">y")]))
+            elif special and rnd.random() < .12:
                 kids.append(rnd.choice([("text", ""), ("pi", "t", " x"), ("pi", "t", "\n")]))
             elif q < .35:
                 kids.append(("text", "".join(rnd.choice(API_TEXT) for _ in range(rnd.randint(1, 3)))))
